@@ -465,8 +465,8 @@ theorem view_stream_exported_partial (pre post : List Registered) (r : Registere
 /-- the full statement "every applying view yields its stream" is false of the code: two applying views, only the later
     one's stream is exported (views `*`→`first` and `*`→`second` on counter `reqs`) -/
 theorem view_shadowed_witness :
-    let v1 : View := ⟨[102, 105, 114, 115, 116], [], [], .sum, none⟩
-    let v2 : View := ⟨[115, 101, 99, 111, 110, 100], [], [], .sum, none⟩
+    let v1 : View := ⟨[102, 105, 114, 115, 116], [], [], .sum, none, none⟩
+    let v2 : View := ⟨[115, 101, 99, 111, 110, 100], [], [], .sum, none, none⟩
     let sel : InstrSel := ⟨.counter, .all, []⟩
     let i : Instr := ⟨.counter, [114, 101, 113, 115], [], []⟩
     let sc : View.Scope := ⟨[109], [], []⟩
@@ -487,18 +487,30 @@ theorem view_shadowed_witness :
   rw [he']
   decide
 
+/-- the default explicit bucket boundaries, and D63: the observable path hands the view's aggregation config on -/
+theorem histogram_defaults : Gen.defaultHistogramBounds = [0, 5, 10, 25, 50, 75, 100, 250, 500, 750, 1000, 2500, 5000, 7500, 10000] ∧
+    Gen.asyncStorageUsesConfig = true := ⟨rfl, rfl⟩
+
 /-- **then its name, description, aggregation and attribute filter shape the exported stream**: the stream's name and
-    description are the view's unless empty, the aggregation is the view's (the type default for `kDefault`), unit and
-    type stay the instrument's.  (The attribute keys: next theorem.) -/
+    description are the view's unless empty, the aggregation is the view's (the type default for `kDefault`) and, for a
+    histogram, its bucket boundaries are the view's configured ones (the defaults without a configuration) — for
+    synchronous and observable instruments alike; unit and type stay the instrument's.  (The attribute keys: next theorem.) -/
 theorem view_shapes_stream (i : Instr) (v : View) (keys : List Bytes) :
     (streamOf i v keys).name = (if v.name = [] then i.name else v.name) ∧
     (streamOf i v keys).description = (if v.description = [] then i.description else v.description) ∧
     (streamOf i v keys).agg = (if v.agg = .default then defaultAgg i.type else v.agg) ∧
+    (streamOf i v keys).bounds = (if (streamOf i v keys).agg = .histogram
+      then some (match v.bounds with
+                 | some b => b
+                 | none => [0, 5, 10, 25, 50, 75, 100, 250, 500, 750, 1000, 2500, 5000, 7500, 10000])
+      else none) ∧
     (streamOf i v keys).unit = i.unit ∧ (streamOf i v keys).type = i.type := by
   unfold streamOf resolveAgg
-  refine ⟨?_, ?_, rfl, rfl, rfl⟩
+  rw [histogram_defaults.1]
+  refine ⟨?_, ?_, rfl, ?_, rfl, rfl⟩
   · cases h : v.name <;> simp
   · cases h : v.description <;> simp
+  · cases hb : v.bounds <;> simp
 
 /-- the attribute filter: exactly the measured keys the view allows — as the code is, only for synchronous instruments
     (or views without a filter): observable instruments ignore it (D22) -/
@@ -516,8 +528,8 @@ theorem view_shapes_stream_filter_partial (i : Instr) (v : View) (keys : List By
 
 /-- the witness for D22: observable counter, view with allow-list `{a}`, measurement with keys `a`, `b` -/
 theorem view_filter_ignored_witness :
-    (streamOf ⟨.obsCounter, [111], [], []⟩ ⟨[], [], [], .default, some [[97]]⟩ [[97], [98]]).keys = [[97], [98]] ∧
-    (streamOf ⟨.counter, [111], [], []⟩ ⟨[], [], [], .default, some [[97]]⟩ [[97], [98]]).keys = [[97]] := by
+    (streamOf ⟨.obsCounter, [111], [], []⟩ ⟨[], [], [], .default, some [[97]], none⟩ [[97], [98]]).keys = [[97], [98]] ∧
+    (streamOf ⟨.counter, [111], [], []⟩ ⟨[], [], [], .default, some [[97]], none⟩ [[97], [98]]).keys = [[97]] := by
   decide
 
 /-- **and nothing else**: the view's own `unit` (stored by `View`, never read) has no influence on the stream -/
@@ -535,7 +547,8 @@ theorem default_aggregation_table :
     unit, and all measured attributes -/
 theorem unmatched_gets_type_default (reg : List Registered) (sc : View.Scope) (i : Instr) (keys : List Bytes)
     (hv : validInstrument i.name i.unit = true) (hno : ∀ r ∈ reg, applies r sc i = false) :
-    exported true reg sc i keys = [⟨i.name, i.description, i.unit, i.type, defaultAgg i.type, keys⟩] := by
+    exported true reg sc i keys = [⟨i.name, i.description, i.unit, i.type, defaultAgg i.type, keys,
+      if defaultAgg i.type = .histogram then some Gen.defaultHistogramBounds else none⟩] := by
   unfold exported storages
   rw [(findViews_spec reg sc i).2 hno]
   simp only [hv, Bool.not_true, Bool.or_false, Bool.false_eq_true, if_false, List.map_cons, List.map_nil, List.getLast?_singleton]
